@@ -49,6 +49,7 @@ CONSTANTS Ctxs,          \* context names (a sequence, e.g. <<"c1","c2">>)
           Repaired,      \* subset of {"KvCompName", "SliceKVRules"}
           Variant,       \* "asCoded" | "sharedKeys" | "noRecord" | "packageState" | "mwInlines" | "nonceForgets"
           MaxNonces,     \* how often WithNonce may be applied to one context
+          NonceCtxs,     \* the contexts WithNonce may be applied to (emission B: one of the two, all mode pairs are explored)
           MaxSteps,
           EmitEdges
 
@@ -186,7 +187,7 @@ StylesheetRequest ==
 \* registry of the context starts empty again although the document already holds the definitions.
 SetNonce(c) ==
     /\ n < MaxSteps /\ n' = n + 1
-    /\ nonce[c] < MaxNonces
+    /\ c \in NonceCtxs /\ nonce[c] < MaxNonces
     /\ nonce' = [nonce EXCEPT ![c] = @ + 1]
     /\ mode' = [mode EXCEPT ![c] = IF @ = "fresh" THEN "winit" ELSE @]
     /\ IF Variant = "nonceForgets" THEN emitted' = [emitted EXCEPT ![c] = {}] /\ UNCHANGED defd
